@@ -124,6 +124,26 @@ func checkC16(c *Ctx) {
 		}
 	}
 
+	// pinned known findings: Union2D's pruning presumes operands with material in their box whose value is at least the
+	// distance to the box (see known_findings.json); identified by these exact inputs
+	{
+		a, _ := sdf.Circle2D(1)
+		b := sdf.Transform2D(sdf.Box2D(v2.Vec{X: 2, Y: 2}, 0), sdf.Translate2d(v2.Vec{X: 10}).Mul(sdf.Scale2d(v2.Vec{X: 1, Y: 4})))
+		u := sdf.Union2D(a, b).(*sdf.UnionSDF2)
+		p := v2.Vec{X: -50, Y: 60}
+		c.Eval(1)
+		if f, s := u.Evaluate(p), u.EvaluateSlow(p); f != s {
+			c.Violate("union2d-pruning-nonuniform-scaled-operand", fmt.Sprintf("Union2D pruned!=exhaustive Union2D(Circle2D(1), Box2D(2,2) scaled (1,4) at (10,0)) at p=%v: Evaluate=%g EvaluateSlow=%g", p, f, s), map[string]any{"p": p})
+		}
+		e := sdf.Intersect2D(sdf.Box2D(v2.Vec{X: 2, Y: 2}, 0), sdf.Transform2D(a, sdf.Translate2d(v2.Vec{X: 10})))
+		u2 := sdf.Union2D(e, sdf.Transform2D(a, sdf.Translate2d(v2.Vec{X: 8}))).(*sdf.UnionSDF2)
+		p = v2.Vec{X: 2}
+		c.Eval(1)
+		if f, s := u2.Evaluate(p), u2.EvaluateSlow(p); f != s {
+			c.Violate("union2d-pruning-empty-operand", fmt.Sprintf("Union2D pruned!=exhaustive Union2D(Intersect2D(Box2D(2,2), Circle2D(1) at (10,0)) [empty], Circle2D(1) at (8,0)) at p=%v: Evaluate=%g EvaluateSlow=%g", p, f, s), map[string]any{"p": p})
+		}
+	}
+
 	// (b) Interval.Overlap
 	ri := c.Rng("interval")
 	nInt := c.Pick(20000, 1000000)
